@@ -310,6 +310,11 @@ def fam_hist(t, v):
     if not same(w.data, ref_set(t, p, v)) or not iter_ok(w, 0): return False
   return True
 
+@oracle
+def fam_iter(t, v):
+  """Leaf enumeration only (keys / values / items / len against the reference) - the cheap core of fam_items."""
+  return iter_ok(mk(t))
+
 # ---- law: iteration / multi-key reads / special keys -------------------------------------------------------------
 @oracle
 def fam_items(t, v):
@@ -600,6 +605,14 @@ def gen(tier, cmax, cmax_heavy, full, cmax_heavy_d3=6):
       for sfx, pre0 in splits:
         A(F(f'ob_{fam}_{tag}{sfx}', _args(nc, nl, extra), f'{pre0} and 0 <= c1 <= {cm} and 0 <= c2 <= {cm}', f"""
       t = {expr}
+      return {call}"""))
+  # ---- the same (non-empty) container object at two positions of the tree: sharing is not a cycle, every leaf is listed and mapped
+  T2 = 'build([c0, c1, c2], [0, 0], 2, [l0, l1, l2, l3])'
+  for tag, frame in (('dict', "{'a': s_, 'b': s_}"), ('list', '[s_, s_]'), ('tuple', '(s_, s_)'), ('nested', "{'a': [s_], 'b': s_}")):
+    for fam in ('iter', 'apply'):
+      extra, call, _ = FAMILIES[fam] if fam in FAMILIES else (['v'], 'fam_iter(t, v)', False)
+      A(F(f'ob_shared_{fam}_{tag}', _args(3, 4, extra), f'1 <= c0 <= 6 and 0 <= c1 <= {cmax} and 0 <= c2 <= {cmax}', f"""
+      t = (lambda s_: {frame})({T2})
       return {call}"""))
   A(F('ob_empty_roots', 'v: int', 'True', 'return fam_empty_roots(v)'))
   A(F('ob_root_scalar', 'v: int, a: int', 'v != 0', 'return fam_root_scalar(v, a)'))
